@@ -32,3 +32,12 @@ VARIANTS += [
                                                E(RX, "    def convert_rex_to_dialect(self):\n", "    def convert_rex_to_dialect(self):\n        if self.dialect is not None:\n            self.OutCats = Categories(self.thin_extras(self.extra_letters_arg),\n                                      full_escape=self.full_escape,\n                                      dialect=self.dialect)\n")],
       rule='C03-CATSYNC', key='Categories'),
 ]
+
+VARIANTS += [
+    M('C03', 'characters-seen-capped-with-strings', E(RX, "                        n_strings[i] = len(frag_strings[i])\n                    frag_chars[i] = frag_chars[i].union(set(list(g)))", "                        n_strings[i] = len(frag_strings[i])\n                        frag_chars[i] = frag_chars[i].union(set(list(g)))"),
+      rule='C03-EVIDENCE', key='frag_chars'),
+    M('C03', 'run-patterns-only-for-first-strings', E(RX, "                    (frag_rlefcs[i],\n                     frag_rlecs[i]) = self.rle_fc_c(g, frag,\n                                                     frag_rlefcs[i],\n                                                     frag_rlecs[i])",
+                                                      "                    if n_strings[i] <= size.max_strings_in_group:\n                        (frag_rlefcs[i],\n                         frag_rlecs[i]) = self.rle_fc_c(g, frag,\n                                                         frag_rlefcs[i],\n                                                         frag_rlecs[i])"),
+      rule='C03-EVIDENCE', key='frag_rlefcs'),
+    M('C03', 'refactor-chars-updated-in-place', E(RX, "                    frag_chars[i] = frag_chars[i].union(set(list(g)))", "                    frag_chars[i].update(g)"), kind='refactor'),
+]
